@@ -72,6 +72,26 @@ def flush_rules(ctx: Ctx, res: Result, RID: str):
             res.fail(Finding(RID, flush.qname, w, flush.loc(w), "the guard wraps the whole wait loop: one timeout stops waiting for the rest"))
         else:
             res.ok(RID, {"wait": norm(w), "at": flush.loc(w), "per-future": bool(loops)})
+        # how long a task is waited for does not depend on how many there are: no limit, or a fixed positive one (a time
+        # budget divided by the number of pending tasks reaches 0 with enough of them, and flush returns at once)
+        if isinstance(w.func, ast.Attribute) and w.func.attr in ("result", "exception") and not t.resolve_call(w, flush).repo \
+                and not norm(w.func.value).endswith("logging"):
+            ta = w.args[0] if w.args else next((k.value for k in w.keywords if k.arg == "timeout"), None)
+            fixed = ta is None or (isinstance(ta, ast.Constant) and (ta.value is None or (isinstance(ta.value, (int, float)) and ta.value > 0)))
+            if not fixed and isinstance(ta, (ast.Name, ast.Attribute)):
+                if isinstance(ta, ast.Name) and t.local_bindings(flush, ta.id):
+                    fixed = False
+                else:
+                    r_ = p.resolve_expr_static(flush.module, ta)
+                    v_ = r_[1].consts.get(r_[2]) if r_ and r_[0] == "const" else None
+                    if v_ is None and isinstance(ta, ast.Attribute) and isinstance(ta.value, ast.Name) and ta.value.id in ("self", "cls") and flush.cls is not None:
+                        v_ = next((c_.class_attrs[ta.attr] for c_ in flush.cls.mro if ta.attr in c_.class_attrs), None)
+                    fixed = isinstance(v_, ast.Constant) and isinstance(v_.value, (int, float)) and v_.value > 0
+            if fixed:
+                res.ok(RID, {"wait per task is fixed": norm(ta) if ta is not None else "no limit"})
+            else:
+                res.fail(Finding(RID, flush.qname, w, flush.loc(w), "the time flush waits for a task is `%s`, worked out at run time: with many pending tasks (or an integer division) it "
+                                 "becomes 0 and flush returns while accepted tasks are still running" % norm(ta)[:40]))
         # every path through flush reaches the wait: no condition, no earlier exit
         anchor = loops[-1] if loops else paths.stmt_of(p, w)
         conds_ = paths.conditions(p, anchor, flush)
@@ -250,7 +270,10 @@ def run(ctx: Ctx, tier: str) -> Result:
             continue
         for c in t.calls_in(f):
             if isinstance(c.func, ast.Attribute) and c.func.attr == "add_done_callback" and c.args:
-                for tt in t.type_of(c.args[0], f):
+                cb_e = c.args[0]
+                if isinstance(cb_e, ast.Call) and norm(cb_e.func).rsplit(".", 1)[-1] == "partial" and cb_e.args:
+                    cb_e = cb_e.args[0]          # functools.partial(callback, <bound arguments>)
+                for tt in t.type_of(cb_e, f):
                     if tt[0] in ("bound", "func") and tt[1] in p.functions:
                         cb = p.functions[tt[1]]
                         ncb += 1
@@ -364,4 +387,26 @@ def run(ctx: Ctx, tier: str) -> Result:
                          "number overwrite each other, and flush() of one returns while its task is still running" % (norm(n_)[:60], what_)))
     if not pw:
         res.ok("C09.E", {"delivery bookkeeping is per handler (no class-level / module-level container written)": len(pipeline)})
+    # one task handler: the one the push service was given is the one shutdown flushes. A component of the agent that was
+    # handed to another component when the agent was put together is not replaced later (the other keeps the old one)
+    dcls = p.cls("deep.api.deep.Deep")
+    dinit = dcls.lookup("__init__")
+    shared_fields = set()
+    for c_ in t.calls_in(dinit):
+        if not t.resolve_call(c_, dinit).ctor and not (isinstance(c_.func, ast.Attribute) and c_.func.attr.startswith("set_")):
+            continue
+        for a_ in list(c_.args) + [k_.value for k_ in c_.keywords]:
+            if isinstance(a_, ast.Attribute) and isinstance(a_.value, ast.Name) and a_.value.id == "self":
+                shared_fields.add(a_.attr)
+    nshared = 0
+    for fld in sorted(shared_fields):
+        late = [(sf, v_) for sf, v_, _ in t.field_stores(dcls, fld) if sf.name != "__init__"]
+        nshared += 1
+        if late:
+            sf, v_ = late[0]
+            res.fail(Finding("C09.D", sf.qname, paths.stmt_of(p, v_) if v_ is not None else fld, sf.loc(v_) if v_ is not None else sf.loc(), "`self.%s` is given a new object in %s, after it was handed to "
+                             "other components in the constructor: they keep the first one (the push service submits to a task handler that shutdown no longer flushes or closes)" % (fld, sf.name)))
+        else:
+            res.ok("C09.D", {"component handed to others is never replaced": fld})
+    res.floor("components shared at construction", nshared, 2)
     return res
